@@ -100,6 +100,8 @@ type replayFile struct {
 		Blueprint core.Blueprint `json:"blueprint"`
 		Forbidden int            `json:"forbidden"`
 		Seq       []int          `json:"seq"`
+		Case      string         `json:"case"`
+		LongCase  string         `json:"long_store_case"`
 	} `json:"replay"`
 	Kind string `json:"kind"`
 }
@@ -114,6 +116,15 @@ func replay(t *testing.T, env core.Env, rep *core.Report, v core.Visitor, spec *
 	var rf replayFile
 	if err := json.Unmarshal(b, &rf); err != nil {
 		t.Fatal(err)
+	}
+	if rf.Replay.Case != "" || rf.Replay.LongCase != "" {
+		// a directed case (deep reorganisation, long stores): it lives in the oracle's Finish
+		rep.Bound = "replay of " + env.Replay + " (directed case, re-executed by the oracle's Finish)"
+		if fin, ok := v.(interface{ Finish() }); ok {
+			fin.Finish()
+		}
+		rep.Write(env.Out)
+		return
 	}
 	u := core.Fabricate(rf.Replay.Blueprint, 0)
 	core.ReplaySeq(u, rf.Replay.Forbidden, rf.Replay.Seq, rep, v, spec.opts)
